@@ -1323,6 +1323,73 @@ def search_zero_points(ctx):
     ctx.extra['zero_point_search'] = {'configurations': n}
 
 
+def _explicit_mapping_case(inp):
+    """(max abs difference between Basis(mesh, elem, mapping=M) and Basis(transformed mesh, elem), scale) for probes @ y,
+    interpolator(y) and point_source; M is the affine mapping of the transformed mesh"""
+    import skfem
+    cls = getattr(skfem, inp['mesh_class'])
+    p0 = np.array(inp['p'], dtype=float)
+    t0 = np.array(inp['t'])
+    S = np.array(inp['S'], dtype=float)
+    sh = np.array(inp['shift'], dtype=float).reshape(-1, 1)
+    m = cls(p0, t0)
+    m2 = cls(S @ m.p + sh, m.t)
+    M = skfem.MappingAffine(m2)
+    bs = skfem.Basis(m, make_elem(inp['element']), mapping=M)
+    ref = skfem.Basis(m2, make_elem(inp['element']))
+    x = np.array(inp['points'], dtype=float)
+    y = np.cos(1.0 + 0.37 * np.arange(ref.N))
+    out = {}
+    try:
+        a, b = bs.probes(x) @ y, ref.probes(x) @ y
+        out['probes'] = float(np.max(np.abs(a - b)))
+        a, b = np.asarray(bs.interpolator(y)(x)), np.asarray(ref.interpolator(y)(x))
+        out['interpolator'] = float(np.max(np.abs(a - b)))
+        if not tuple(ref._base_tensor_order):
+            a, b = bs.point_source(x[:, 0]), ref.point_source(x[:, 0])
+            out['point_source'] = float(np.max(np.abs(a - b)))
+    except Exception as ex:      # noqa: BLE001 - the points lie strictly inside cells of the mapped geometry
+        out['raised'] = f'{type(ex).__name__}: {ex}'
+    return out, float(np.max(np.abs(y)))
+
+
+def search_explicit_mapping(ctx):
+    """CellBasis(mesh, elem, mapping=M) with M the affine mapping of a sheared / scaled / shifted copy of the mesh (the documented
+    mapping= argument): probes, interpolator and point_source must locate and evaluate in the geometry of M, i.e. agree with the
+    basis built on the transformed mesh itself.  Query points strictly inside cells of the transformed mesh; the shift moves the
+    transformed mesh away from the original one, so a finder working in the mesh's own geometry cannot find them."""
+    import skfem
+    rng = ctx.rng
+    cfgs = [('tri', 'ElementTriP2'), ('tri', 'ElementTriP1'), ('tri', 'ElementVector:ElementTriP1'), ('tet', 'ElementTetP2'), ('tet', 'ElementTetP1')]
+    transforms = {
+        2: [([[2.0, 1.0], [0.0, 1.5]], [3.0, -1.0]), ([[0.5, 0.0], [0.25, 0.5]], [0.125, 0.25]), ([[1.0, 0.0], [0.0, 1.0]], [0.3125, 0.0])],
+        3: [([[2.0, 1.0, 0.0], [0.0, 1.5, 0.5], [0.0, 0.0, 1.25]], [3.0, -1.0, 2.0]),
+            ([[0.5, 0.0, 0.0], [0.25, 0.5, 0.0], [0.0, 0.25, 0.5]], [0.125, 0.25, 0.0]),
+            ([[1.0, 0.0, 0.0], [0.0, 1.0, 0.0], [0.0, 0.0, 1.0]], [0.3125, 0.0, 0.0])]}
+    n = 0
+    for fam, ename in cfgs:
+        m = tensor_mesh(rng, fam, shear=False)
+        d = m.p.shape[0]
+        for S, sh in transforms[d]:
+            p2 = np.array(S) @ m.p + np.array(sh).reshape(-1, 1)
+            nt = m.t.shape[1]
+            cells = sorted(set([0, nt - 1] + [rng.randrange(nt) for _ in range(6)]))
+            lam = np.array([[1 + rng.randrange(8) for _ in cells] for _ in range(d + 1)], dtype=float)
+            lam = lam / lam.sum(axis=0)
+            x = np.einsum('ijk,jk->ik', p2[:, m.t[:, cells]], lam)
+            inp = {'site': 'explicit-mapping', 'mesh_class': type(m).__name__, 'p': m.p.tolist(), 't': m.t.tolist(), 'S': S, 'shift': sh,
+                   'element': ename, 'points': x.tolist()}
+            out, scale = _explicit_mapping_case(inp)
+            n += 1
+            ctx.count(('explicit-mapping', type(m).__name__, ename), nontrivial=True)
+            bad = {k: v for k, v in out.items() if k == 'raised' or v > 1e-9 * (1 + scale)}
+            if bad:
+                ctx.fail(f'probes:explicit-mapping:{ename}:{type(m).__name__}',
+                         f'Basis(mesh, {ename}, mapping=M) with M the mapping of the mesh transformed by x -> S x + b (S = {S}, b = {sh}) '
+                         f'disagrees with the basis built on the transformed mesh: {bad}', inp)
+    ctx.extra['explicit_mapping_search'] = {'configurations': n}
+
+
 # ============================================================================ search(): public call forms around the core (API audit)
 
 API_COVERAGE = [
@@ -1494,6 +1561,11 @@ def replay(ctx, data):
         diff = float(np.max(np.abs(got - ref)))
         ctx.log('batch vs one-point-at-a-time: max abs difference', diff)
         if diff > 1e-9 * (1 + float(np.max(np.abs(ref)))):
+            ctx.fail(data['key'], data['what'], inp)
+    elif site == 'explicit-mapping':
+        out, scale = _explicit_mapping_case(inp)
+        ctx.log('mapping= basis vs basis on the transformed mesh, max abs differences:', out)
+        if any(k == 'raised' or v > 1e-9 * (1 + scale) for k, v in out.items()):
             ctx.fail(data['key'], data['what'], inp)
     elif site == 'zero-points':
         m = getattr(skfem, inp['mesh_class'])(np.array(inp['p']), np.array(inp['t']))
